@@ -3,6 +3,7 @@
 package streams
 
 import (
+	"bufio"
 	"bytes"
 	"fmt"
 	"io"
@@ -20,6 +21,7 @@ import (
 	casketerrors "github.com/tmpim/casket/caskethttp/errors"
 	"github.com/tmpim/casket/caskethttp/httpserver"
 	casketlog "github.com/tmpim/casket/caskethttp/log"
+	_ "github.com/tmpim/casket/caskethttp/basicauth"
 	_ "github.com/tmpim/casket/caskethttp/gzip"
 	_ "github.com/tmpim/casket/caskethttp/rewrite"
 	"github.com/tmpim/casket/casketfile"
@@ -628,4 +630,117 @@ func c20LogGen(g *hx.Gen) {
 
 func init() {
 	hx.Register(&hx.Stream{ID: "C20", Name: "c20.log", Gen: c20LogGen, Eval: c20LogEval})
+}
+
+// ---------------------------------------------------------------------------------------------
+// c20.inject — can one request make one log record span several physical lines?
+//   0 format (hex, no CR/LF in it)   1 request target (hex, as sent on the wire)
+//   2 user name sent with HTTP basic auth and a wrong password against a real `basicauth /` (hex), or -
+//   out: lf=<number of LF bytes in the log file> cr=<number of CR bytes>     (one request is made)
+// The real log directive (and basicauth) set up from Casketfile text, the real Server.ServeHTTP.
+// ---------------------------------------------------------------------------------------------
+
+func c20InjectEval(f []string) (string, []string) {
+	if len(f) != 3 {
+		return "bad-case", nil
+	}
+	dir, err := os.MkdirTemp("", "verif-c20i-")
+	if err != nil {
+		return "setup-error:" + err.Error(), nil
+	}
+	defer os.RemoveAll(dir)
+	out := filepath.Join(dir, "access.log")
+	ctrl := casket.NewTestController("http", fmt.Sprintf("log / %q %q\n", out, hx.UnHS(f[0])))
+	cfg := httpserver.GetConfig(ctrl)
+	setup, err := casket.DirectiveAction("http", "log")
+	if err != nil {
+		return "setup-error:" + err.Error(), nil
+	}
+	if err := setup(ctrl); err != nil {
+		return "setup-error:" + err.Error(), nil
+	}
+	lg, ok := cfg.Middleware()[0](httpserver.EmptyNext).(casketlog.Logger)
+	if !ok {
+		return "setup-error:not a log.Logger", nil
+	}
+	for _, rule := range lg.Rules {
+		for _, e := range rule.Entries {
+			c20StartMu.Lock()
+			err := e.Log.Start()
+			c20StartMu.Unlock()
+			if err != nil {
+				return "setup-error:" + err.Error(), nil
+			}
+			defer e.Log.Close()
+		}
+	}
+	if f[2] != "-" {
+		ctrl.Dispenser = casketfile.NewDispenser("Testfile", strings.NewReader("basicauth / user pass\n"))
+		setup, err := casket.DirectiveAction("http", "basicauth")
+		if err != nil {
+			return "setup-error:" + err.Error(), nil
+		}
+		if err := setup(ctrl); err != nil {
+			return "setup-error:" + err.Error(), nil
+		}
+	}
+	cfg.AddMiddleware(func(next httpserver.Handler) httpserver.Handler {
+		return httpserver.HandlerFunc(func(w http.ResponseWriter, r *http.Request) (int, error) {
+			w.Write([]byte("ok"))
+			return 0, nil
+		})
+	})
+	srv, err := httpserver.NewServer("127.0.0.1:0", []*httpserver.SiteConfig{cfg})
+	if err != nil {
+		return "setup-error:" + err.Error(), nil
+	}
+	// the request exactly as net/http's server would parse it from the wire
+	raw := "GET " + hx.UnHS(f[1]) + " HTTP/1.1\r\nHost: example.test\r\nReferer: http://ref.example/\r\n"
+	if f[2] != "-" {
+		tmp, _ := http.NewRequest("GET", "/", nil)
+		tmp.SetBasicAuth(hx.UnHS(f[2]), "wrong")
+		raw += "Authorization: " + tmp.Header.Get("Authorization") + "\r\n"
+	}
+	req, err := http.ReadRequest(bufio.NewReader(strings.NewReader(raw + "\r\n")))
+	if err != nil {
+		return "bad-case:" + err.Error(), nil
+	}
+	req.RemoteAddr = "192.0.2.7:5555"
+	srv.ServeHTTP(httptest.NewRecorder(), req)
+	b, err := os.ReadFile(out)
+	if err != nil {
+		return "setup-error:" + err.Error(), nil
+	}
+	tags := []string{"record-written"}
+	if strings.Contains(strings.ToLower(hx.UnHS(f[1])), "%0a") || strings.Contains(strings.ToLower(hx.UnHS(f[1])), "%0d") {
+		tags = append(tags, "encoded-line-break-in-url")
+	}
+	if f[2] != "-" && strings.ContainsAny(hx.UnHS(f[2]), "\r\n") {
+		tags = append(tags, "line-break-in-basic-auth-user")
+	}
+	return fmt.Sprintf("lf=%d cr=%d", bytes.Count(b, []byte("\n")), bytes.Count(b, []byte("\r"))), tags
+}
+
+func c20InjectGen(g *hx.Gen) {
+	formats := []string{
+		"{path}", "{rewrite_path}", "{file}", "{dir}", "{fragment}", "{?x}", "{?y}", "{user}", "{uri}", "{query}", "{path_escaped}",
+		"{>Referer}", "{request}", "{remote} - {user} [fixed] \"{method} {uri} {proto}\" {status} {size}",
+		"{remote} - {user} \"{method} {path} {proto}\" {status} {size} \"{?x}\"",
+	}
+	targets := []string{
+		"/", "/a%0Ab", "/a%0D%0Ab", "/dir%0A/file%0A.txt", "/p?x=%0A", "/p?x=1%0D%0A10.0.0.1%20-%20admin%20%22GET%20/admin%22%20200%205&y=%0a",
+		"/plain?x=y", "/%0A", "/a%0ab?x=%0d",
+	}
+	users := []string{"-", "alice", "eve\n10.0.0.1 - admin \"GET /admin HTTP/1.1\" 200 5", "a\r\nb", "user"}
+	for _, f := range formats {
+		for _, t := range targets {
+			for _, u := range users {
+				g.Case(hx.HS(f), hx.HS(t), map[bool]string{true: "-", false: hx.HS(u)}[u == "-"])
+			}
+		}
+	}
+}
+
+func init() {
+	hx.Register(&hx.Stream{ID: "C20", Name: "c20.inject", Gen: c20InjectGen, Eval: c20InjectEval})
 }
